@@ -172,6 +172,11 @@ type Sys struct {
 	testIterBlock     func(job string, count int64)
 }
 
+// EndConstructorContext ends the context that was handed to NewPipelineRunner (an embedder that built the runner inside
+// a set-up function with a deferred cancel, or with a timeout context): the context is documented to stop the periodic
+// persist loop, the runner itself keeps working until Shutdown
+func (s *Sys) EndConstructorContext() { s.cancel() }
+
 // StartedJobs lists the jobs this runner instance started
 func (s *Sys) StartedJobs() []string {
 	s.mu.Lock()
